@@ -85,13 +85,33 @@ def mkStep (orig : List Nat) (partialD : Bool) (letters : List Char) (bounce : B
       l r == 'q' || (if partialD then l r == 't' else (l r == 'o' || l r == 't') && bodyFail to))
     dsn
 
+def parseStage : Char → Option Stage
+  | 's' => some .start
+  | 'r' => some .rcpt
+  | 'b' => some .body
+  | 'c' => some .fin
+  | _ => none
+
+/-- `r` / `rn<digit>`: restart (`n<d>`: with a leftover `<id>.meta.new` of class d - empty, truncated
+somewhere, complete - beside the intact `<id>.meta`: for the queue the same as a plain restart);
+`a<P|A><letters>`: attempt; `a<P|A><letters>!<s|r|b|c>`: attempt in which the target panics at
+`Start` / its first `AddRcpt` / the body stage / the final `Commit` or `Abort`. -/
 def parseStep (orig : List Nat) (bounce : Bool) (unrep : List Nat) (s : String) : Option Step :=
   match s.toList with
   | ['r'] => some .restart
-  | 'a' :: k :: letters =>
+  | ['r', 'n', d] => if d.isDigit then some .restart else none
+  | 'a' :: k :: rest =>
+    let letters := rest.takeWhile (· != '!')
+    let tail := rest.dropWhile (· != '!')
     if (k == 'P' || k == 'A') && letters.length == orig.length &&
         letters.all (fun c => c == 'o' || c == 't' || c == 'q' || c == 'p') then
-      some (mkStep orig (k == 'P') letters bounce unrep)
+      match tail with
+      | [] => some (mkStep orig (k == 'P') letters bounce unrep)
+      | ['!', st] =>
+        match parseStage st, mkStep orig (k == 'P') letters bounce unrep with
+        | some stage, .attempt acc _ _ => some (.panicked stage acc)
+        | _, _ => none
+      | _ => none
     else none
   | _ => none
 
@@ -123,6 +143,8 @@ def showEv : Ev → Option String
   | .readError => some "readerr"
   | .wrote _ => none
   | .removed => none
+  | .seenPanicked s c => some (showSeen s c ++ "!")
+  | .broke _ => none
   | .report r =>
     let w := writeHeader r.hdr
     some s!"rep[to={r.to} u={bit r.utf8} hdr={w.length}.{digest w}]"
@@ -137,13 +159,17 @@ def runOne (co : Nat → Nat) (h : Header) (b : Bytes) (mm : MsgMeta) (sender : 
   -- (nothing dispatched, the message is in the spool only) - for the spool the same as `r`
   let hsteps := match hist.splitOn "." with
     | "R" :: rest => "r" :: rest
-    | l => l
+    | l => match l with
+      | first :: rest => if first.startsWith "Rn" then ("r" ++ (first.drop 1).toString) :: rest else l
+      | [] => l
   let steps ← hsteps.mapM (parseStep to bounce unrep)
   let a : Accepted := { hdr := h, body := b, qmeta := { msgMeta := mm, sender := sender, to := to } }
   let (st, evs) := run allVisible co a steps
-  let fin := match st.disk with
-    | none => "end=removed"
-    | some d => s!"end=pending:{showIdxs d.metaFile.to}"
+  let broken := evs.filterMap fun e => match e with | .broke d => some d | _ => none
+  let fin := match st.disk, broken with
+    | none, [] => "end=removed"
+    | none, d :: _ => s!"end=broken:{showIdxs d.to}"
+    | some d, _ => s!"end=pending:{showIdxs d.metaFile.to}"
   let leak := if (docs evs).all (fun d => (secretsOf d).isEmpty) then "0" else "1"
   pure (" ".intercalate (evs.filterMap showEv ++ [fin, s!"leak={leak}"]))
 
